@@ -189,4 +189,30 @@ def illegalOk (n : Nat) (s : State) (s' : State) (ts : TimeStep Obs) : Bool :=
   decide (s'.adj = s.adj) && decide (s'.colors.length = s.colors.length) &&
   (List.range n).all (fun j => decide ((j : Int) = s.cur) || decide (colour s' j = colour s j))
 
+/-! ### the generator with the uniform draw as parameter (C10) -/
+
+/-- `p_matrix < edge_probability` -/
+def threshold (p : Rat) (U : List (List Rat)) : List (List Bool) :=
+  U.map (fun row => row.map (fun u => decide (u < p)))
+
+/-- `RandomGenerator.__call__` with `U` = the `n × n` matrix `jax.random.uniform` returned and `p` =
+`edge_probability`: threshold, then `tril(·, -1)` and `+ transpose` -/
+def generateU (n : Nat) (p : Rat) (U : List (List Rat)) : List (List Bool) := generate n (threshold p U)
+
+/-- the support of the uniform draw: an `n × n` matrix of numbers of `[0, 1)` -/
+def validUniform (n : Nat) (U : List (List Rat)) : Prop :=
+  U.length = n ∧ ∀ row ∈ U, row.length = n ∧ ∀ u ∈ row, 0 ≤ u ∧ u < 1
+
+instance (n : Nat) (U : List (List Rat)) : Decidable (validUniform n U) := by unfold validUniform; infer_instance
+
+/-- number of edges among the first `m` nodes: pairs `j < i < m` joined by an edge -/
+def numEdges (adj : List (List Bool)) : Nat → Nat
+  | 0 => 0
+  | i + 1 => numEdges adj i + ((List.range i).filter (fun j => edge adj i j)).length
+
+/-- number of `true` entries of the strict lower triangle (rows `< m`) of a Boolean matrix -/
+def lowerTrue (B : List (List Bool)) : Nat → Nat
+  | 0 => 0
+  | i + 1 => lowerTrue B i + ((List.range i).filter (fun j => (B.getD i []).getD j false)).length
+
 end GraphColoring
